@@ -478,8 +478,10 @@ func c06GenOp(rng *sim.Rand, cfg *c06Cfg) c06Op {
 			}
 		case "jwt-secret":
 			op.JWTSecret = c06RandHex(rng, rng.Pick(1, 16, len(cfg.JWT.Secret)/2))
-			if op.JWTSecret == cfg.JWT.Secret {
-				op.JWTSecret += "00"
+			if len(cfg.JWT.Secret) >= 2 && op.JWTSecret[:2] == cfg.JWT.Secret[:2] {
+				// never an HMAC-equivalent key (zero padding makes "2f" and "2f00" the same key)
+				b, _ := hex.DecodeString(op.JWTSecret[:2])
+				op.JWTSecret = hex.EncodeToString([]byte{b[0] ^ 0xff}) + op.JWTSecret[2:]
 			}
 		case "jwt-expired":
 			op.HasExp, op.ExpIn = true, int64(rng.Pick(-2, -5, -3600))
